@@ -409,6 +409,11 @@ class _ReplLockManagerImpl(SyncObjConsumer):
                 existingLock = None
         # Acquire lock if possible
         if existingLock is None or existingLock[0] == clientID:
+            if existingLock is not None:
+                # Commands of one client may be applied out of time stamp order
+                # (stamps are taken before the command is enqueued): never move
+                # the time of a held lock backwards.
+                currentTime = max(currentTime, existingLock[1])
             self.__locks[lockID] = (clientID, currentTime)
             return True
         # Lock already acquired by someone else
@@ -424,7 +429,7 @@ class _ReplLockManagerImpl(SyncObjConsumer):
                 continue
 
             if lockClientID == clientID:
-                self.__locks[lockID] = (clientID, currentTime)
+                self.__locks[lockID] = (clientID, max(currentTime, lockTime))
 
     @replicated
     def release(self, lockID, clientID):
